@@ -136,7 +136,7 @@ def run(ctx):
         emitted += mc["emitted"]
         consts[cfg] = dict(states=mc["states"], transitions=mc["transitions"], depth=mc["depth"], scenarios=mc["emitted"], FixLatest=FIX_LATEST)
     chosen = regression() + scs
-    s, nlines = drive_and_judge(ctx, chosen, sweep=12 if quick else 160, variants="rotate" if quick else "all",
+    s, nlines = drive_and_judge(ctx, chosen, sweep=12 if quick else 160, variants="all",
                                 shards=4 if quick else 8)
     ctx.cov.update(dict(
         states=states, transitions=trans, traces_validated_against_impl=s["runs"],
